@@ -23,6 +23,12 @@ SRC = {  # id -> (worktree, n)
     "C12-4": ("/tmp/wt4-C12", 4), "C12-5": ("/tmp/wt4-C12", 5),
     # fifth round (after the Framed state-machine layer of C13 was built)
     "C13-3": ("/tmp/wt5-C13", 1), "C13-4": ("/tmp/wt5-C13", 2), "C13-5": ("/tmp/wt5-C13", 3),
+    # sixth round (process-group clause of C19)
+    "C19-1": ("/tmp/wt6-C19", 1), "C19-2": ("/tmp/wt6-C19", 2),
+    # seventh round (copy / read_to_end checks of C11)
+    "C11-6": ("/tmp/wt7-C11", 1), "C11-7": ("/tmp/wt7-C11", 2),
+    # eighth round (native-tls shim / handshake wrapper of C15)
+    "C15-1": ("/tmp/wt8-C15", 1), "C15-2": ("/tmp/wt8-C15", 2),
     "C11-3": ("/tmp/wt4-C11", 1), "C11-4": ("/tmp/wt4-C11", 2), "C11-5": ("/tmp/wt4-C11", 3),
 }
 RESULTS = json.load(open(os.path.join(os.path.dirname(__file__), "seed_results.json")))
